@@ -748,31 +748,56 @@ func Roots(v ssa.Value, deep bool) []ssa.Value {
 		case *ssa.UnOp:
 			if x.Op == token.MUL {
 				if a, ok := x.X.(*ssa.Alloc); ok {
-					// reaching definition inside the block: the nearest preceding store wins
-					if ls := lastStoreBefore(x, a); ls != nil {
-						walk(ls.Val)
+					st, uninit := ReachingStores(x, a)
+					if len(st) == 0 {
+						out = append(out, x)
 						return
 					}
-					st := StoresTo(a)
+					_ = uninit
+					for _, s := range st {
+						walk(s.Val)
+					}
+					return
+				}
+				if fa, ok := x.X.(*ssa.FieldAddr); ok {
+					// field of a local struct cell: whole-struct stores and stores to the same field
+					if a, ok := fa.X.(*ssa.Alloc); ok {
+						found := false
+						for _, s := range StoresTo(a) {
+							walk(s.Val)
+							found = true
+						}
+						if rs := a.Referrers(); rs != nil {
+							for _, r := range *rs {
+								if fa2, ok := r.(*ssa.FieldAddr); ok && fa2.Field == fa.Field && fa2.Referrers() != nil {
+									for _, r2 := range *fa2.Referrers() {
+										if st, ok := r2.(*ssa.Store); ok && st.Addr == fa2 {
+											walk(st.Val)
+											found = true
+										}
+									}
+								}
+							}
+						}
+						if found {
+							return
+						}
+					}
+				}
+				if fv, ok := x.X.(*ssa.FreeVar); ok {
+					// captured variable: resolve to the cell of the enclosing function
+					cell, site := CellOf(fv)
+					if cell == nil {
+						out = append(out, x)
+						return
+					}
+					st := storesVisibleToClosure(cell, site)
 					if len(st) == 0 {
 						out = append(out, x)
 						return
 					}
 					for _, s := range st {
 						walk(s.Val)
-					}
-					return
-				}
-				if fv, ok := x.X.(*ssa.FreeVar); ok {
-					// captured variable: cell in the parent
-					for _, cell := range BoundValues(fv) {
-						if a, ok := cell.(*ssa.Alloc); ok {
-							for _, s := range StoresTo(a) {
-								walk(s.Val)
-							}
-						} else {
-							out = append(out, x)
-						}
 					}
 					return
 				}
@@ -908,25 +933,255 @@ func SortInstrs(xs []ssa.Instruction) {
 	sort.SliceStable(xs, func(i, j int) bool { return xs[i].Pos() < xs[j].Pos() })
 }
 
-// lastStoreBefore returns the nearest store to cell a that precedes the load
-// in the same basic block (named results spilled for defer are stored and
-// re-loaded around rundefers in the returning block).
-func lastStoreBefore(load *ssa.UnOp, a *ssa.Alloc) *ssa.Store {
-	b := load.Block()
-	if b == nil {
+// ReachingStores returns the stores to local cell a that may reach the load
+// (flow-sensitive, path-insensitive backward search over feasible edges);
+// uninit reports that the entry can be reached without passing a store.
+// Stores performed inside closures that capture the cell are always included.
+func ReachingStores(load ssa.Instruction, a *ssa.Alloc) (stores []*ssa.Store, uninit bool) {
+	fn := load.Parent()
+	all := StoresTo(a)
+	local := map[*ssa.Store]bool{}
+	for _, s := range all {
+		if s.Parent() == fn {
+			local[s] = true
+		} else {
+			stores = append(stores, s) // closure stores: conservative
+		}
+	}
+	if a.Parent() != fn {
+		// the cell belongs to an enclosing function: no flow information here
+		return all, true
+	}
+	seen := map[*ssa.BasicBlock]bool{}
+	added := map[*ssa.Store]bool{}
+	var scan func(b *ssa.BasicBlock, from int)
+	scan = func(b *ssa.BasicBlock, from int) {
+		for i := from; i >= 0; i-- {
+			if st, ok := b.Instrs[i].(*ssa.Store); ok && local[st] {
+				if !added[st] {
+					added[st] = true
+					stores = append(stores, st)
+				}
+				return
+			}
+		}
+		if b == fn.Blocks[0] {
+			uninit = true
+		}
+		for _, p := range b.Preds {
+			// only feasible edges
+			feasible := false
+			for _, s := range Succs(p) {
+				if s == b {
+					feasible = true
+				}
+			}
+			if !feasible || seen[p] {
+				continue
+			}
+			seen[p] = true
+			scan(p, len(p.Instrs)-1)
+		}
+	}
+	scan(load.Block(), InstrIndex(load)-1)
+	return stores, uninit
+}
+
+// SelCase is one case of a select statement.
+type SelCase struct {
+	Index int              // state index; -1 for default
+	State *ssa.SelectState // nil for default
+	Body  *ssa.BasicBlock  // first block of the case body
+	Recv  ssa.Value        // extracted received value (nil if unused or send)
+}
+
+// SelectCases recovers the case bodies of a select from the index dispatch chain.
+func SelectCases(sel *ssa.Select) []SelCase {
+	var idx ssa.Value
+	recv := map[int]ssa.Value{}
+	if rs := sel.Referrers(); rs != nil {
+		for _, r := range *rs {
+			if e, ok := r.(*ssa.Extract); ok {
+				if e.Index == 0 {
+					idx = e
+				} else if e.Index >= 2 {
+					recv[e.Index] = e
+				}
+			}
+		}
+	}
+	var out []SelCase
+	if idx == nil {
 		return nil
 	}
-	idx := -1
-	for i, in := range b.Instrs {
-		if in == ssa.Instruction(load) {
-			idx = i
+	// map state index -> extract index of its received value
+	recvIdx := map[int]int{}
+	n := 2
+	for i, st := range sel.States {
+		if st.Dir == types.RecvOnly {
+			recvIdx[i] = n
+			n++
+		}
+	}
+	var lastElse *ssa.BasicBlock
+	maxK := -1
+	if rs := idx.Referrers(); rs != nil {
+		for _, r := range *rs {
+			b, ok := r.(*ssa.BinOp)
+			if !ok || b.Op != token.EQL {
+				continue
+			}
+			k64, isC := ConstInt(b.Y)
+			if !isC {
+				continue
+			}
+			k := int(k64)
+			if b.Referrers() == nil {
+				continue
+			}
+			for _, r2 := range *b.Referrers() {
+				if iff, ok := r2.(*ssa.If); ok {
+					blk := iff.Block()
+					if k >= 0 && k < len(sel.States) {
+						out = append(out, SelCase{Index: k, State: sel.States[k], Body: blk.Succs[0], Recv: recv[recvIdx[k]]})
+					}
+					if k > maxK {
+						maxK = k
+						lastElse = blk.Succs[1]
+					}
+				}
+			}
+		}
+	}
+	if !sel.Blocking && lastElse != nil {
+		out = append(out, SelCase{Index: -1, Body: lastElse})
+	}
+	sort.Slice(out, func(i, j int) bool { return out[i].Index < out[j].Index })
+	return out
+}
+
+// Selects returns the select instructions of fn.
+func Selects(fn *ssa.Function) []*ssa.Select {
+	var out []*ssa.Select
+	EachInstr(fn, func(in ssa.Instruction) {
+		if s, ok := in.(*ssa.Select); ok {
+			out = append(out, s)
+		}
+	})
+	return out
+}
+
+// IsBuiltinCall reports whether the instruction calls the named builtin.
+func IsBuiltinCall(in ssa.Instruction, name string) bool {
+	cc := CC(in)
+	if cc == nil {
+		return false
+	}
+	b, ok := cc.Value.(*ssa.Builtin)
+	return ok && b.Name() == name
+}
+
+// StoreToField reports whether the instruction stores to the named field
+// (of struct type typeName, "" = any) and returns the stored value.
+func StoreToField(in ssa.Instruction, typeName, field string) (ssa.Value, bool) {
+	st, ok := in.(*ssa.Store)
+	if !ok {
+		return nil, false
+	}
+	fa, ok := st.Addr.(*ssa.FieldAddr)
+	if !ok {
+		return nil, false
+	}
+	s := derefStruct(fa.X.Type())
+	if s == nil || s.Field(fa.Field).Name() != field {
+		return nil, false
+	}
+	if typeName != "" {
+		base := ssa.Value(fa.X)
+		okT := false
+		for base != nil {
+			if _, n := NamedOf(base.Type()); n == typeName {
+				okT = true
+				break
+			}
+			_, base = FieldOf(base)
+		}
+		if !okT {
+			return nil, false
+		}
+	}
+	return st.Val, true
+}
+
+// CellOf resolves a free variable through nested closures to the local cell
+// (Alloc) of the function that declares the variable, and returns the
+// MakeClosure instruction in that function through which it was captured
+// (nil if captured at several sites).
+func CellOf(fv *ssa.FreeVar) (*ssa.Alloc, *ssa.MakeClosure) {
+	var v ssa.Value = fv
+	var site *ssa.MakeClosure
+	for depth := 0; depth < 8; depth++ {
+		f, ok := v.(*ssa.FreeVar)
+		if !ok {
 			break
 		}
+		fn := f.Parent()
+		par := fn.Parent()
+		if par == nil {
+			return nil, nil
+		}
+		idx := -1
+		for i, x := range fn.FreeVars {
+			if x == f {
+				idx = i
+			}
+		}
+		var bound ssa.Value
+		var mcs []*ssa.MakeClosure
+		EachInstr(par, func(in ssa.Instruction) {
+			if mc, ok := in.(*ssa.MakeClosure); ok && mc.Fn == fn && idx >= 0 && idx < len(mc.Bindings) {
+				bound = mc.Bindings[idx]
+				mcs = append(mcs, mc)
+			}
+		})
+		if bound == nil {
+			return nil, nil
+		}
+		site = nil
+		if len(mcs) == 1 {
+			site = mcs[0]
+		}
+		v = bound
 	}
-	for i := idx - 1; i >= 0; i-- {
-		if st, ok := b.Instrs[i].(*ssa.Store); ok && st.Addr == a {
-			return st
+	a, _ := v.(*ssa.Alloc)
+	return a, site
+}
+
+// storesVisibleToClosure returns the stores to a captured cell that a closure
+// created at site may observe: stores reaching the creation site, stores that
+// can execute after it, and stores made inside closures.
+func storesVisibleToClosure(cell *ssa.Alloc, site *ssa.MakeClosure) []*ssa.Store {
+	all := StoresTo(cell)
+	if site == nil || site.Parent() != cell.Parent() {
+		return all
+	}
+	reach, _ := ReachingStores(site, cell)
+	keep := map[*ssa.Store]bool{}
+	for _, s := range reach {
+		keep[s] = true
+	}
+	for _, s := range all {
+		if s.Parent() != cell.Parent() {
+			keep[s] = true
+		} else if CanReach(site, s) {
+			keep[s] = true
 		}
 	}
-	return nil
+	var out []*ssa.Store
+	for _, s := range all {
+		if keep[s] {
+			out = append(out, s)
+		}
+	}
+	return out
 }
